@@ -167,6 +167,15 @@ def judge(batches, result, closer_sleep):
     for i in set(seen):
         if seen.count(i) > 1:
             return f"record {i} delivered {seen.count(i)} times"
+    # nothing lost: once the queue has drained and the consumer was still asking, a read batch of which
+    # one record was delivered must have been delivered completely (the reader puts whole batches)
+    line = result["line"]
+    starved = len(result["delivered"]) == 0 or not result["delivered"][-1].startswith("None")
+    if " q=0 " in line and "done=1" in line and not starved:
+        for _gap, rs in batches:
+            ids = [r["id"] for r in rs if r["kind"] != "ignored"]
+            if any(i in seen for i in ids) and not all(i in seen for i in ids):
+                return f"records {[i for i in ids if i not in seen]} of a read batch were lost (delivered: {sorted(set(seen))})"
     return None
 
 
